@@ -11,7 +11,7 @@ from .fontlib import gdl, gen
 
 def _make(args):
     kind, seed, i, outdir = args
-    rng = random.Random((seed * 1000003 + i) * 7 + {'hostile': 1, 'c06': 2, 'wellformed': 3, 'just': 4, 'stateful': 5, 'cmap': 6, 'feat': 7}.get(kind, 9))
+    rng = random.Random((seed * 1000003 + i) * 7 + {'hostile': 1, 'c06': 2, 'wellformed': 3, 'just': 4, 'stateful': 5, 'cmap': 6, 'feat': 7, 'capedge': 8}.get(kind, 9))
     for attempt in range(20):
         try:
             if kind == 'hostile':
@@ -24,6 +24,8 @@ def _make(args):
                 spec = gen.cmap_spec(rng)
             elif kind == 'feat':
                 spec = gen.feat_spec(rng)
+            elif kind == 'capedge':
+                spec = gen.capedge_spec(rng)
             else:
                 spec = gen.gen_spec(rng, gen.C06_ALL)
             if kind != 'cmap' or rng.random() < 0.5:
@@ -40,6 +42,9 @@ def _make(args):
             f.write(data)
         with open(path[:-4] + '.json', 'w') as f:
             json.dump(spec, f)
+        if spec.get('texts'):
+            with open(path[:-4] + '.texts', 'w') as f:
+                f.write('\n'.join(spec['texts']) + '\n')
         if spec.get('pseudos'):
             ng = len(spec['glyphs'])
             with open(path[:-4] + '.pseudo', 'w') as f:
